@@ -1,5 +1,16 @@
 ---------------------------- MODULE FormatCmdProp ----------------------------
-(* C12, second sentence, as a predicate on (did any file have a parse error, file texts before, the texts format()  *)
-(* gives, file texts after): used as invariant of FormatCmd (abstract texts) and by FormatTrace on observed runs.    *)
-CmdPost(parseError, before, expect, after) == IF parseError THEN after = before ELSE after = expect
+(* C12, second sentence ("`mos format` rewrites each file of the project with exactly that text and leaves all files   *)
+(* untouched if any file has a parse error") as a predicate on one run: used as invariant of FormatCmd (abstract       *)
+(* texts) and by FormatTrace on observed runs of the real binary.                                                      *)
+(*   outcome      "ok" (exit 0) | "error" (diagnostic, exit code 1) | "crash" (panic / signal)                         *)
+(*   parseError   some file of the project has a parse error                                                           *)
+(*   cfgBeyond    the configuration asks for a width beyond what the formatter can lay out (it may be refused)         *)
+(*   before / expect / after      texts of the project's files: as found, as format() gives them, after the run        *)
+(*   otherBefore / otherAfter     texts of files that are NOT part of the project (e.g. a main.asm in a subdirectory)  *)
+CmdPost(outcome, parseError, cfgBeyond, before, expect, after, otherBefore, otherAfter) ==
+  /\ outcome # "crash"
+  /\ otherAfter = otherBefore
+  /\ IF parseError THEN outcome = "error" /\ after = before
+     ELSE IF cfgBeyond THEN (outcome = "error" /\ after = before) \/ (outcome = "ok" /\ after = expect)
+     ELSE outcome = "ok" /\ after = expect
 =============================================================================
